@@ -86,10 +86,11 @@ func c10(c *Ctx) {
 			cs := strings.Join(condStrings(in.Block()), " && ")
 			es := shortCallee(in)
 			if strings.Contains(es, "MatchString") {
-				r.Check("Match:regex-when-compiled", strings.Contains(cs, ".regex!=nil)=true"), in.Pos(), cs)
+				r.Check("Match:regex-when-compiled", knownNonNil(factsAt(in.Block()), func(v ssa.Value) bool { return strings.HasSuffix(pathOf(v), ".regex") }), in.Pos(), cs)
 			}
 			if strings.Contains(es, "strings.HasPrefix") {
-				r.Check("Match:prefix-when-flagged", strings.Contains(cs, ".prefixMatch=true") && strings.Contains(cs, ".regex!=nil)=false"), in.Pos(), cs)
+				fs := factsAt(in.Block())
+				r.Check("Match:prefix-when-flagged", boolKnown(fs, func(v ssa.Value) bool { return strings.HasSuffix(pathOf(v), ".prefixMatch") }, true) && knownNil(fs, func(v ssa.Value) bool { return strings.HasSuffix(pathOf(v), ".regex") }), in.Pos(), cs)
 				a := in.Common().Args
 				r.Check("Match:prefix-args", paramIndex(mt, a[0]) == 1 && strings.HasSuffix(pathOf(a[1]), ".test"), in.Pos(), "strings.HasPrefix(s, sm.test)")
 			}
@@ -103,6 +104,22 @@ func c10(c *Ctx) {
 			r.Fail("NewStringMatch:literal", ns.Pos(), "returned StringMatch literal not found")
 			return
 		}
+		// fields assigned after the literal (sm := StringMatch{...}; sm.test = ...) belong to the same construction
+		eachInstr(ns, func(in ssa.Instruction) {
+			st, ok := in.(*ssa.Store)
+			if !ok {
+				return
+			}
+			if t, f, base, ok := fieldRef(st.Addr); ok && t == "StringMatch" {
+				if al, isAl := base.(*ssa.Alloc); isAl && al.Comment != "complit" {
+					if _, have := lit[f]; !have || isNilConst(lit[f]) {
+						lit[f] = st.Val
+					} else if cl, isCall := st.Val.(*ssa.Call); isCall && isCall2(cl, "regexp.MustCompile") {
+						lit[f] = st.Val
+					}
+				}
+			}
+		})
 		// idioms for "S has prefix/suffix lit" and "S without it" (HasPrefix+slice, CutPrefix, TrimPrefix, ...)
 		litIs := func(v ssa.Value, lit string) bool { c, ok := constString(v); return ok && c == lit }
 		prefixTest := func(v ssa.Value, lit string, suffix bool) (ssa.Value, bool) {
@@ -219,6 +236,13 @@ func c10(c *Ctx) {
 						okPre = true
 					}
 				}
+				// Cut form: the pattern without a trailing '*' is taken unconditionally (it is the pattern itself
+				// when there is none) and the "found" result of the same call is the prefix flag
+				if ex, isEx := v.(*ssa.Extract); isEx && !guard && testKnown(in.Block(), "regex:", false, false) {
+					if pf, isPf := lit["prefixMatch"].(*ssa.Extract); isPf && pf.Tuple == ex.Tuple && pf.Index == 1 {
+						okPre = true
+					}
+				}
 			}
 		})
 		r.Check("NewStringMatch:prefix-star", okPre, ns.Pos(), "a trailing '*' (on a non-regex pattern) selects prefix matching and is cut")
@@ -249,6 +273,9 @@ func c10(c *Ctx) {
 			cl, ok := v.(*ssa.Call)
 			return ok && isCall(cl, "regexp.MustCompile", "regexp.Compile")
 		}) && derivesFrom(lit["prefixMatch"], func(v ssa.Value) bool {
+			if _, isTest := prefixTest(v, "*", true); isTest {
+				return true
+			}
 			k, ok := v.(*ssa.Const)
 			return ok && k.Value != nil && k.Value.String() == "true"
 		}) && lit["test"] != nil
@@ -265,7 +292,10 @@ func c10(c *Ctx) {
 				if rt, ok := in.(*ssa.Return); ok {
 					if k, ok := rt.Results[0].(*ssa.Const); ok {
 						cs := strings.Join(condStrings(rt.Block()), " && ")
-						if k.Value.ExactString() == "true" && (strings.Contains(cs, ".Match(") || strings.Contains(cs, ".MatchAny(")) && strings.Contains(cs, ")=true") {
+						if k.Value.ExactString() == "true" && callKnown(factsAt(rt.Block()), func(cl *ssa.Call) bool {
+							cal := staticCallee(cl)
+							return cal != nil && (cal.Name() == "Match" || cal.Name() == "MatchAny")
+						}, true) {
 							okT = true
 						}
 						if k.Value.ExactString() == "false" && strings.Contains(cs, "rangeindex") {
@@ -457,7 +487,7 @@ func c10(c *Ctx) {
 			cs := strings.Join(condStrings(a.Block()), " && ")
 			switch x := a.(type) {
 			case *ssa.Return:
-				r.Check("action:drop-metric:flag", strings.Contains(cs, ".DropMetric=true"), a.Pos(), cs)
+				r.Check("action:drop-metric:flag", boolKnown(factsAt(a.Block()), func(v ssa.Value) bool { return strings.HasSuffix(pathOf(v), ".DropMetric") }, true), a.Pos(), cs)
 			case *ssa.MapUpdate:
 				// the key is an element of the metric's tags, and a true test of a drop-tags pattern (or of the
 				// whole drop-tags list) against that very element is known here
@@ -484,7 +514,7 @@ func c10(c *Ctx) {
 				r.Check("action:drop-tag:matched", okKey && okTest, a.Pos(), "the tag recorded as dropped is the tag that matched a drop-tags pattern: "+cs)
 			case *ssa.Store:
 				s, isS := constString(x.Val)
-				r.Check("action:drop-host:flag", strings.Contains(cs, ".DropHost=true") && isS && s == "", a.Pos(), cs)
+				r.Check("action:drop-host:flag", boolKnown(factsAt(a.Block()), func(v ssa.Value) bool { return strings.HasSuffix(pathOf(v), ".DropHost") }, true) && isS && s == "", a.Pos(), cs)
 			}
 		}
 	})
